@@ -62,6 +62,13 @@ def env():
 
 def reset():
     ENV[0] = Env()
+    try:
+        from . import loader
+
+        loader.restore_globals()
+        rt.clear_caches()
+    except Exception:  # pragma: no cover
+        pass
     return ENV[0]
 
 
@@ -79,7 +86,12 @@ def _split_chunks(chunks, binary):
     whole = rt.mk(segs)
     if isinstance(whole, FieldStr):
         return whole.splitlines_keepends()
-    return whole.splitlines(True)
+    # a file is cut into lines at "\n" only (str.splitlines would also cut at VT, FF, FS, GS, RS, NEL, LS, PS)
+    parts = whole.split("\n")
+    out = [p + "\n" for p in parts[:-1]]
+    if parts[-1] != "":
+        out.append(parts[-1])
+    return out
 
 
 class Reader:
